@@ -93,7 +93,72 @@ func rel(o, ref outcome) string {
 	if equalModuloNil(reflect.ValueOf(o.Val), reflect.ValueOf(ref.Val)) {
 		return "ok~" // accepted, differs only in nil vs empty container
 	}
-	return "ok*" // accepted, different value
+	return "ok*[" + diffDesc(reflect.ValueOf(o.Val), reflect.ValueOf(ref.Val)) + "]" // accepted, different value
+}
+
+// diffDesc describes the first difference between two decoded values (o first, reference
+// second) coarsely and without paths or scalar values: nil / empty / nonempty containers,
+// "len" for containers of different non-zero length, "value" for scalars.
+func diffDesc(a, b reflect.Value) string {
+	size := func(v reflect.Value) string {
+		switch {
+		case v.IsNil():
+			return "nil"
+		case v.Len() == 0:
+			return "empty"
+		}
+		return "nonempty"
+	}
+	switch a.Kind() {
+	case reflect.Struct:
+		for i := 0; i < a.NumField(); i++ {
+			if !reflect.DeepEqual(a.Field(i).Interface(), b.Field(i).Interface()) {
+				return diffDesc(a.Field(i), b.Field(i))
+			}
+		}
+	case reflect.Slice:
+		if a.IsNil() != b.IsNil() || a.Len() != b.Len() {
+			if size(a) == size(b) {
+				return "len"
+			}
+			return size(a) + "/" + size(b)
+		}
+		for i := 0; i < a.Len(); i++ {
+			if !reflect.DeepEqual(a.Index(i).Interface(), b.Index(i).Interface()) {
+				return diffDesc(a.Index(i), b.Index(i))
+			}
+		}
+	case reflect.Map:
+		if a.IsNil() != b.IsNil() || a.Len() != b.Len() {
+			if size(a) == size(b) {
+				return "len"
+			}
+			return size(a) + "/" + size(b)
+		}
+		var ks []string
+		for _, k := range a.MapKeys() {
+			ks = append(ks, k.String())
+		}
+		sortStrings(ks)
+		for _, k := range ks {
+			av, bv := a.MapIndex(reflect.ValueOf(k)), b.MapIndex(reflect.ValueOf(k))
+			if !bv.IsValid() {
+				return "keys"
+			}
+			if !reflect.DeepEqual(av.Interface(), bv.Interface()) {
+				return diffDesc(av, bv)
+			}
+		}
+	case reflect.Pointer:
+		if a.IsNil() || b.IsNil() {
+			if a.IsNil() {
+				return "nil/ptr"
+			}
+			return "ptr/nil"
+		}
+		return diffDesc(a.Elem(), b.Elem())
+	}
+	return "value"
 }
 
 func show(o outcome) string {
